@@ -8,7 +8,7 @@ CONSTANTS Tier
 VARIABLES pc, key, out
 vars == <<pc, key, out>>
 
-G == IF Tier = "quick" THEN 6 ELSE 9
+G == IF Tier = "quick" THEN 6 ELSE 8
 Span == 8
 
 Families ==
@@ -18,8 +18,8 @@ Families ==
 SystemsOf(f) ==
   CASE f = "mat22" -> SysMatrix(2, 2, 0..3)
     [] f = "mat23" -> SysMatrix(2, 3, IF Tier = "quick" THEN 0..2 ELSE 0..3)
-    [] f = "mat24" -> SysMatrix(2, 4, 0..2)
-    [] f = "mat33" -> SysMatrix(3, 3, 0..2)
+    [] f = "mat24" -> SysMatrix(2, 4, 0..1) \cup SysBoundsOf(A24)
+    [] f = "mat33" -> SysMatrix(3, 3, 0..1) \cup SysBoundsOf(A33)
     [] f = "mat34" -> {Plain(A34, 4, Vec(4, 0), Vec(4, 4))} \cup SysBoundsOf(A34)
     [] f = "bounds" -> UNION {SysBoundsOf(A) : A \in {A22, A23, A23b, A24, A33}}
     [] f = "kb" -> UNION {SysKBOf(A, Vec(Len(A[1]), 0), Vec(Len(A[1]), 4), KVariants(2)) \cup
